@@ -57,6 +57,10 @@ BOUNDED = {
                   'bound': 'head-follow over the real HTTP front end in a context with and without an existing head, same topic appended in three '
                            'contexts; 14 topic names that start like a reserved path (cas / head / import / version) posted with a body, with and '
                            'without ?context=, then read back through GET /head'},
+    'restart_model': {'test': 'replays/suite/vx_restart_model.rs', 'props': ['C17', 'C16'],
+                      'bound': 'one history on the real serve loops (handlers: plain / replaced while running / unregistered / dotted name; generators: one '
+                               'running, one failed spawn; commands: one defined twice, one call), the store directory copied, the serve loops started '
+                               'again on the copy; one context'},
     'lifecycle_model': {'test': 'replays/suite/vx_lifecycle_model.rs', 'props': ['C16', 'C18', 'C19'],
                         'bound': 'one lifecycle each on the real serve loops with real nu scripts: handler replace / unregister / invalid script / failing '
                                  'closure; generator with three strings, spawn without content, spawn for a known name, restart after stop; command with '
@@ -64,7 +68,7 @@ BOUNDED = {
     'handler_model': {'test': 'replays/suite/vx_handler_model.rs', 'props': ['C14', 'C15', 'C06'],
                       'bound': 'four scenarios on the real handlers::serve with real nu scripts: prefix-related names, a handler reacting to every '
                                'frame with forwarded metas, explicit .append --context / spoofed meta, a closure that appends then fails'},
-    'follow_model': {'test': 'replays/suite/vx_follow_model.rs', 'props': ['C03', 'C11'],
+    'follow_model': {'test': 'replays/suite/vx_follow_model.rs', 'props': ['C03', 'C11', 'C06'],
                      'bound': 'histories of 0 / 3 / 150 frames, 60 live appends (ephemeral mixed in) by one writer, limits 1..6 x 0..5 historical '
                               'matches, tail, two contexts, a consumer that stalls for 3000 appends; assertions on content only'},
     'store_model': {'test': 'replays/suite/vx_store_model.rs', 'props': ['C01', 'C05', 'C06', 'C07', 'C08', 'C09', 'C20'],
